@@ -1,97 +1,21 @@
 """C01 - default neighbour search returns exactly the pairs within max_edits."""
 from __future__ import annotations
 
-import copy
-
 from .. import nncommon as nc
-from ..nncommon import AA
+from .. import nnprops as npx
+from ..nnprops import ModelRun
 
-ALPHABETS = ["AC", "WY", "xy"]          # concrete instantiations of the abstract 2-letter alphabet
-ALPHABETS3 = ["ACD", "CDY", "a-#"]
-
-
-def classify(inp, clause):
-    """key of a violation = call site / mode / failing clause (input class)"""
-    return f"symdel/{inp['mode']}/{'two' if inp['two'] else 'self'}/{clause}"
+INVS = npx.BASE_INVS + ("SymDelLemma", "IndexIsVariants")
 
 
-def replay_emitted(ctx, res, alphabets, apis=("nearest_neighbor", "symdel"), prop_key=classify):
-    """spec -> code: every behaviour TLC emitted is executed on the real code."""
-    drift_seen = 0
-    for n, doc in enumerate(res.printed):
-        if "inp" not in doc:
-            continue
-        for a_i, letters in enumerate(alphabets):
-            api = apis[(n + a_i) % len(apis)] if apis else None
-            bad, drift = nc.compare_case(doc, letters=letters, api=api)
-            strs = [nc.dec(s, letters) for s in doc["inp"]["seqs"]]
-            ctx.case(dict(kind="replay", api=api, seqs=strs, k=doc["inp"]["k"], expect=doc["trip"]),
-                     nontrivial=len(doc["trip"]) > 0 and a_i == 0)
-            drift_seen += len(drift)
-            for ev, clause, detail in bad:
-                ctx.violation(prop_key(doc["inp"], clause),
-                              f"{api}({strs}, max_edits={doc['inp']['k']}) {ev}:{clause} {detail}",
-                              dict(kind="replay", doc=doc, letters=letters, api=api))
-        ctx.traces += 1
-    if drift_seen:
-        ctx.note(f"internal-state drift on {drift_seen} replayed behaviours (not a violation)")
-    return drift_seen
-
-
-def judge_sessions(ctx, sessions, verdicts, prop_key=classify):
-    for s in sessions:
-        api, drift = nc.failed_api_clauses(verdicts[s["sid"]])
-        ctx.traces += 1
-        for l, op, clause in api:
-            ev = s["events"][l - 1]
-            strs = [nc.dec(x, s["letters"]) for x in s["inp"]["seqs"]]
-            ctx.violation(prop_key(s["inp"], clause),
-                          f"{s['api']}: event {op} clause {clause} on {len(strs)} sequences {strs[:6]}... "
-                          f"k={s['inp']['k']} {ev.get('exc', '')}",
-                          dict(kind="session", session=s, verdict=verdicts[s["sid"]]))
-        if drift:
-            ctx.note(f"session {s['sid']}: drift {drift[:3]}")
-
-
-def corrupted_controls(ctx, sessions):
-    """Anti-vacuity: corrupt one recorded field per session copy; the validator must reject each."""
-    bad = []
-    sid = 900000
-    for s in sessions:
-        j = next((e for e in s["events"] if e["op"] == "Join"), None)
-        if not j or not j["ret"]:
-            continue
-        for kind in ("drop", "dist", "dup", "self"):
-            c = copy.deepcopy(s)
-            cj = next(e for e in c["events"] if e["op"] == "Join")
-            if kind == "drop":
-                cj["ret"] = cj["ret"][1:]
-                want = "missing_pair"
-            elif kind == "dist":
-                cj["ret"][0][2] += 1
-                want = "wrong_distance"
-            elif kind == "dup":
-                cj["ret"].append(list(cj["ret"][0]))
-                want = "repeated"
-            else:
-                cj["ret"].append([cj["ret"][0][0], cj["ret"][0][0], 0])
-                want = "self_pair"
-            sid += 1
-            c["sid"] = sid
-            c["events"] = [e for e in c["events"] if e["op"] != "Output"]
-            bad.append((c, want))
-        if len(bad) >= 8:
-            break
-    if not bad:
-        return
-    verd = nc.validate_sessions(ctx, [b for b, _ in bad], invariants=("Exact",), count=False)
-    for c, want in bad:
-        api, _ = nc.failed_api_clauses(verd[c["sid"]])
-        ok = any(cl == want for _, _, cl in api)
-        ctx.negative.append(dict(kind="corrupted_trace", corruption=want, rejected=ok))
-        if not ok:
-            from ..core import MachineryFailure
-            raise MachineryFailure(f"corrupted trace ({want}) was accepted by the validator")
+def models(quick):
+    m = [ModelRun("C01_a2", letters=[0, 1], maxlen=3, maxn=2, ks=[1, 2], invariants=INVS)]
+    if quick:
+        m.append(ModelRun("C01_a2n3", letters=[0, 1], maxlen=2, maxn=3, ks=[1, 2], invariants=INVS))
+    else:
+        m.append(ModelRun("C01_a2n3", letters=[0, 1], maxlen=3, maxn=3, ks=[1, 2, 3], invariants=INVS))
+        m.append(ModelRun("C01_a3", letters=[0, 1, 2], maxlen=3, maxn=2, ks=[1, 2, 3], invariants=INVS))
+    return m
 
 
 def run(ctx):
@@ -102,16 +26,16 @@ def run(ctx):
     ctx.assumptions = ["TLC's evaluation of Strings.tla (fold-based DP) is the distance oracle; rapidfuzz is not trusted",
                        "model bounds: see tlc_runs; larger inputs are covered by sampled traces only"]
     # ---- M + R: exhaustive model, replayed
-    cfgs = ["MCNN_C01_q.cfg"] if ctx.quick else ["MCNN_C01_q.cfg", "MCNN_C01_t2.cfg", "MCNN_C01_t3.cfg"]
-    for cfg in cfgs:
-        res = ctx.mc("MCNN", cfg, workers=16, coverage=not ctx.quick)
-        alph = ALPHABETS3 if cfg.endswith("t3.cfg") else ALPHABETS
-        replay_emitted(ctx, res, alph if not ctx.quick else alph[:2] + alph[2:])
+    for mr in models(ctx.quick):
+        res = npx.run_model(ctx, mr, coverage=not ctx.quick)
+        alph = ["ACD", "CWY", "a-#"] if len(mr.kw["letters"]) == 3 else ["AC", "WY", "xy"]
+        npx.replay_emitted(ctx, res, alph)
     ctx.exhaustive = True
     # ---- T: universes ("all pairs in one call") and random repertoires
     sessions = []
     sid = 0
-    uni = [("AC", 4, (1, 2))] if ctx.quick else [("AC", 5, (1, 2, 3, 4)), ("ACD", 4, (1, 2, 3)), ("xy", 4, (1, 2, 3))]
+    uni = [("AC", 4, (1, 2)), ("xyz", 3, (1, 3))] if ctx.quick else \
+          [("AC", 5, (1, 2, 3, 4)), ("ACD", 4, (1, 2, 3)), ("xyz", 4, (1, 2, 3))]
     for letters, L, ks in uni:
         strs = nc.all_strings(letters, L)
         ctx.rng.shuffle(strs)
@@ -119,39 +43,22 @@ def run(ctx):
             sid += 1
             inp = nc.make_inp("symdel", "lev", k, strs, letters=letters)
             sessions.append(nc.build_session(sid, inp, letters=letters, api=("nearest_neighbor", "symdel")[sid % 2]))
-    nrep = 10 if ctx.quick else 120
+    nrep = 14 if ctx.quick else 150
     for r in range(nrep):
         sid += 1
-        n = ctx.rng.randint(12, 30) if ctx.quick else ctx.rng.randint(20, 60)
+        n = ctx.rng.randint(12, 36) if ctx.quick else ctx.rng.randint(20, 70)
         k = ctx.rng.choice([1, 1, 2, 2, 3])
-        seqs = nc.repertoire(ctx.rng, n, maxmut=k + 1, maxlen=14 if k < 3 else 11)
+        seqs = nc.repertoire(ctx.rng, n, maxmut=k + 1, maxlen=16 if k < 3 else 12)
         inp = nc.make_inp("symdel", "lev", k, seqs)
         sessions.append(nc.build_session(sid, inp, api=("nearest_neighbor", "symdel")[sid % 2]))
-    for s in sessions:
-        j = next(e for e in s["events"] if e["op"] == "Join")
-        ctx.case(dict(kind="session", api=s["api"], n=len(s["inp"]["seqs"]), k=s["inp"]["k"],
-                      first=[nc.dec(x, s["letters"]) for x in s["inp"]["seqs"][:5]], pairs=len(j["ret"])),
-                 nontrivial=len(j["ret"]) > 0)
+    npx.count_sessions(ctx, sessions)
     verdicts = nc.validate_sessions(ctx, sessions)
-    judge_sessions(ctx, sessions, verdicts)
+    npx.judge_sessions(ctx, sessions, verdicts)
     # ---- negative controls
-    corrupted_controls(ctx, sessions[-4:] + sessions[:2])
-    if not ctx.quick:
-        ctx.mc("MCNN", "NEG_C01_sdlemma.cfg", workers=8, expect_violation=True)
+    npx.corrupted_controls(ctx, sessions[-4:] + sessions[:2])
+    npx.run_model(ctx, ModelRun("NEG_C01_kminus1", letters=[0, 1], maxlen=3, maxn=2, ks=[1, 2], asfound=["mut_sd_kminus1"],
+                                invariants=("Exact", "SymDelLemma")), workers=4, expect_violation=True)
 
 
 def replay(doc):
-    """Re-run one recorded violation against the current tree."""
-    from ..core import Ctx
-    ctx = Ctx("C01", "quick", 0)
-    r = doc["replay"]
-    if r["kind"] == "replay":
-        bad, _ = nc.compare_case(r["doc"], letters=r["letters"], api=r["api"])
-        print("mismatches:", bad)
-        return 1 if bad else 0
-    s = r["session"]
-    s2 = nc.build_session(s["sid"], s["inp"], letters=s["letters"], api=s["api"] or None)
-    v = nc.validate_sessions(ctx, [s2], count=False)
-    api, _ = nc.failed_api_clauses(v[s2["sid"]])
-    print("failed clauses:", api)
-    return 1 if api else 0
+    return npx.replay_doc("C01", doc)
